@@ -5,7 +5,7 @@
    the premise becomes one on the state before the first of any sequence of blocks and closing transactions. *)
 From Coq Require Import ZArith Lia Bool List.
 From RecordUpdate Require Import RecordUpdate.
-From Sif Require Import Base.Outcome Base.SdkMath Base.Store Base.Bank Model.Margin Proofs.BankProofs Proofs.MarginProofs Proofs.MarginLoop.
+From Sif Require Import Base.Outcome Base.SdkMath Base.Store Base.Bank Model.Margin Proofs.BankProofs Proofs.ClpInv Proofs.MarginProofs Proofs.MarginLoop.
 Import ListNotations.
 Local Open Scope Z_scope.
 
@@ -13,6 +13,39 @@ Lemma frames_close_long : frames close_long. Proof. unfold close_long. frames_au
 Lemma kg_close_long : keepsG close_long. Proof. unfold close_long. kg_auto. Qed.
 Lemma pf_close_long : pframes close_long. Proof. unfold close_long. pf_auto. Qed.
 Lemma sh_close_long : keepsSH close_long. Proof. unfold close_long. sh_auto. Qed.
+
+(* from the facts the combinators give about the context after a procedure to the state predicate *)
+Lemma assemble_ready s a pool c c' :
+  c_s c = s -> c_asset c = a -> c_pool c = pool ->
+  MReady s -> get a (ms_pools s) = Some pool ->
+  Good c' -> stored_shape (c_s c') -> ms_params (c_s c') = ms_params s -> PF c c' ->
+  get a (ms_pools (c_s c')) = Some (c_pool c') -> gap_eq c c' ->
+  MReady (c_s c') /\ gapN (c_s c') = gapN s /\ (forall a', a' <> ROWAN -> gapE (c_s c') a' = gapE s a').
+Proof.
+  intros Es Ea Ep (Hw & Hn & Hsh & Hpct & Hfm & Hwp & Hpools & Hsum) Hg (_ & Hw' & (_ & Hnb' & Heb' & Hn')) Hsh' Hpar (_ & Hpf) Hst HG.
+  destruct (Hpools _ _ Hg) as (Ha & Hnb & Heb & Hbe).
+  destruct HG as (G1 & G2 & G3 & G4). unfold Gn, Ge in G1, G2. rewrite G3 in G2. rewrite Es, Ea, Ep in *.
+  assert (C3 : forall a', a' <> a -> get a' (ms_pools (c_s c')) = get a' (ms_pools s)).
+  { intros a' Hne. destruct Hpf as [->|(p' & ->)]; [reflexivity|apply get_set_other; exact Hne]. }
+  assert (Hwp' : wf (ms_pools (c_s c'))) by (destruct Hpf as [->|(p' & ->)]; [exact Hwp|apply wf_set; exact Hwp]).
+  assert (HgapN : gapN (c_s c') = gapN s).
+  { unfold gapN. destruct Hpf as [E|(p' & E)].
+    - rewrite E in Hst. rewrite Hg in Hst. injection Hst as Ep'. rewrite E. rewrite <- Ep' in G1. lia.
+    - rewrite E in Hst. rewrite get_set_same in Hst. injection Hst as ->. rewrite E, sumf_set, Hg. cbn [fopt]. unfold fnat. lia. }
+  assert (HgapE : forall a', a' <> ROWAN -> gapE (c_s c') a' = gapE s a').
+  { intros a' Hr. unfold gapE. destruct (Z.eq_dec a' a) as [->|Hne].
+    - rewrite Hst, Hg. lia.
+    - rewrite (C3 a' Hne). rewrite (G4 a' Hr Hne). reflexivity. }
+  split; [|split; [exact HgapN|exact HgapE]].
+  split; [exact Hw'|]. split; [exact Hn'|]. split; [exact Hsh'|].
+  split; [unfold pct_ok in *; rewrite Hpar; exact Hpct|]. split; [unfold funds_not_module in *; rewrite Hpar; exact Hfm|].
+  split; [exact Hwp'|]. split.
+  - intros a' p' Hg'. destruct (Z.eq_dec a' a) as [->|Hne].
+    + rewrite Hst in Hg'. injection Hg' as <-. split; [exact Ha|]. split; [exact Hnb'|]. split; [exact Heb'|]. lia.
+    + rewrite (C3 a' Hne) in Hg'. destruct (Hpools _ _ Hg') as (Q1 & Q2 & Q3 & Q4). split; [exact Q1|]. split; [exact Q2|]. split; [exact Q3|].
+      rewrite (G4 a' Q1 Hne). exact Q4.
+  - unfold gapN in HgapN. lia.
+Qed.
 
 (* the closing of one stored position, whichever of the two procedures does it *)
 Section Closing.
@@ -24,38 +57,17 @@ Section Closing.
     let c := mkCtx s pool m asset addr id in
     SumInv s -> MReady s -> find_mtp s addr id = Some m -> get asset (ms_pools s) = Some pool ->
     f c = (c', Ok r) ->
-    Closed c (c_s c') -> get asset (ms_pools (c_s c')) = Some (c_pool c') -> gap_eq c c' ->
+    get asset (ms_pools (c_s c')) = Some (c_pool c') -> gap_eq c c' ->
     MReady (c_s c') /\ gapN (c_s c') = gapN s /\ (forall a', a' <> ROWAN -> gapE (c_s c') a' = gapE s a').
   Proof.
-    intros asset c HS (Hw & Hn & Hsh & Hpct & Hfm & Hwp & Hpools & Hsum) Hf Hg H HC Hst HG.
+    intros asset c HS HM Hf Hg H Hst HG. pose proof HM as (Hw & Hn & Hsh & Hpct & Hfm & Hwp & Hpools & Hsum).
     destruct (Hsh _ _ _ Hf) as (Hid & Haddr & Hshape).
     destruct (Hpools _ _ Hg) as (Ha & Hnb & Heb & Hbe).
     assert (G0 : Good c) by (split; [exact Hid|]; split; [exact Hw|]; split; [exact (Hn _ _ _ Hf)|]; split; [exact Hnb|]; split; [exact Heb|exact Hn]).
     assert (S0 : SH c) by (split; [exact Haddr|]; split; [exact Hid|]; split; [exact Hshape|]; split; [exact Hw|exact Hsh]).
-    destruct (Gf _ _ _ H G0) as (_ & Hw' & (_ & Hnb' & Heb' & Hn')).
     destruct (Sf _ _ _ H S0) as (_ & _ & _ & _ & Hsh').
     destruct (Ff _ _ _ H) as (_ & _ & Hpar & _ & _).
-    destruct (Pf _ _ _ H) as (_ & Hpf).
-    destruct HC as (_ & _ & C3 & _ & _). cbn [c_asset c_s c] in C3.
-    destruct HG as (G1 & G2 & G3 & G4). unfold Gn, Ge in G1, G2. rewrite G3 in G2. cbn [c_s c_pool c_asset c] in G1, G2, G4.
-    assert (Hwp' : wf (ms_pools (c_s c'))) by (destruct Hpf as [->|(p' & ->)]; [exact Hwp|apply wf_set; exact Hwp]).
-    assert (HgapN : gapN (c_s c') = gapN s).
-    { unfold gapN. cbn [c_asset c_s c] in Hpf. destruct Hpf as [E|(p' & E)].
-      - rewrite E in Hst. rewrite Hg in Hst. injection Hst as Ep. rewrite E. rewrite <- Ep in G1. lia.
-      - rewrite E in Hst. rewrite get_set_same in Hst. injection Hst as ->. rewrite E, sumf_set, Hg. cbn [fopt]. unfold fnat. lia. }
-    assert (HgapE : forall a', a' <> ROWAN -> gapE (c_s c') a' = gapE s a').
-    { intros a' Hr. unfold gapE. destruct (Z.eq_dec a' asset) as [->|Hne].
-      - rewrite Hst, Hg. lia.
-      - rewrite (C3 a' Hne). rewrite (G4 a' Hr Hne). reflexivity. }
-    split; [|split; [exact HgapN|exact HgapE]].
-    split; [exact Hw'|]. split; [exact Hn'|]. split; [exact Hsh'|].
-    split; [unfold pct_ok in *; rewrite Hpar; exact Hpct|]. split; [unfold funds_not_module in *; rewrite Hpar; exact Hfm|].
-    split; [exact Hwp'|]. split.
-    - intros a' p' Hg'. destruct (Z.eq_dec a' asset) as [->|Hne].
-      + rewrite Hst in Hg'. injection Hg' as <-. split; [exact Ha|]. split; [exact Hnb'|]. split; [exact Heb'|]. lia.
-      + rewrite (C3 a' Hne) in Hg'. destruct (Hpools _ _ Hg') as (Q1 & Q2 & Q3 & Q4). split; [exact Q1|]. split; [exact Q2|]. split; [exact Q3|].
-        rewrite (G4 a' Q1 Hne). exact Q4.
-    - unfold gapN in HgapN. lia.
+    exact (assemble_ready s asset pool c c' eq_refl eq_refl eq_refl HM Hg (Gf _ _ _ H G0) Hsh' Hpar (Pf _ _ _ H) Hst HG).
   Qed.
 End Closing.
 
@@ -107,7 +119,7 @@ Proof.
     destruct (closing_tail_ok false (fun r => r) c1 c' r H (keeps_on_pool _ _ _ HK Hon) L1) as (HC & _ & Hmem).
     split; [eapply Closed_keeps; eassumption|]. destruct K1 as (_&_&_&Ka&_). cbn [c_asset] in Ka. rewrite <- Ka. exact Hmem. }
   destruct HCS as (HC & Hst).
-  exact (closing_ready _ close_long frames_close_long kg_close_long pf_close_long sh_close_long s pool m signer id c' r HS HM Hf Hg H HC Hst HG).
+  exact (closing_ready _ close_long frames_close_long kg_close_long pf_close_long sh_close_long s pool m signer id c' r HS HM Hf Hg H Hst HG).
 Qed.
 
 (* ---- MsgAdminClose ---- *)
@@ -132,5 +144,217 @@ Proof.
   assert (Hh : interest_hyps (mkCtx s pool m (pool_asset_of m) addr id)) by (unfold interest_hyps; cbn; auto).
   destruct (force_close_long_ok _ _ _ _ _ H Hon (fun _ => Hh) L) as (HC & _ & _ & Hst). cbn [c_asset] in Hst.
   exact (closing_ready _ (force_close_long true tf) (frames_force_close true tf) (kg_force_close true tf) (pf_force_close true tf) (sh_force_close true tf)
-           s pool m addr id c' r HS HM Hf Hg H HC Hst HG).
+           s pool m addr id c' r HS HM Hf Hg H Hst HG).
+Qed.
+
+(* ---- MsgOpen ---- *)
+Lemma frames_take_in_custody : frames take_in_custody. Proof. unfold take_in_custody. frames_auto. Qed.
+Lemma kg_take_in_custody : keepsG take_in_custody. Proof. unfold take_in_custody. kg_auto. Qed.
+Lemma pf_take_in_custody : pframes take_in_custody. Proof. unfold take_in_custody. pf_auto. Qed.
+Lemma sh_take_in_custody : keepsSH take_in_custody. Proof. unfold take_in_custody. sh_auto. Qed.
+#[local] Hint Resolve frames_take_in_custody : frames.
+#[local] Hint Resolve kg_take_in_custody : kg.
+#[local] Hint Resolve pf_take_in_custody : pf.
+#[local] Hint Resolve sh_take_in_custody : sh.
+
+Lemma on_pool_asset a m : on_pool a m -> pool_asset_of m = a.
+Proof.
+  intros (Ha & [(H1 & H2)|(H1 & H2)]); unfold pool_asset_of.
+  - rewrite H1. cbn. exact H2.
+  - rewrite H2. destruct (Z.eqb_spec a ROWAN); [contradiction|reflexivity].
+Qed.
+
+(* Borrow: up to the point where the new position has its id (the steps before it touch no stored position) *)
+Lemma borrow_fn_good coll_amt cust_amt eta c c' u :
+  borrow_fn coll_amt cust_amt eta c = (c', Ok u) ->
+  c_id c = 0 -> 0 <= ms_count (c_s c) -> mtps_wf (c_s c) -> CN c -> stored_shape (c_s c) ->
+  c_addr c <> CLP_MODULE -> on_pool (c_asset c) (c_mtp c) ->
+  Good c' /\ SH c' /\ PF c c' /\ ms_params (c_s c') = ms_params (c_s c).
+Proof.
+  unfold borrow_fn. intros H Hid Hcnt Hw (Hc1 & Hc2 & Hc3 & Hc4) Hsh Haddr Hon. pmg H.
+  pm H as c1 u1 E1. assert (c1 = c) by (destruct (_ <? _); [exfalso; eapply failM_not_ok; eassumption|apply ret_ok in E1; tauto]). subst c1.
+  pm H as c2 liab_add E2. apply lift_ok in E2. destruct E2 as (-> & El).
+  pm H as c3 u3 E3. apply upd_mtp_ok in E3. destruct E3 as (m3 & Em3 & ->).
+  repeat inv1 Em3. uints. subst.
+  pmg H. pm H as c4 h E4. apply lift_ok in E4. destruct E4 as (-> & _).
+  pm H as c5 u5 E5. apply upd_mtp_ok in E5. destruct E5 as (m5 & Em5 & ->). injection Em5 as <-.
+  pm H as c6 u6 E6. apply bank_send_ok in E6. destruct E6 as (b & Hsend & ->).
+  pmg H. pm H as c7 u7 E7. apply upd_pool_ok in E7. destruct E7 as (p7 & Hp7 & ->).
+  pm H as c8 u8 E8. apply set_pool_ok in E8. subst c8.
+  apply set_mtp_new in H; [|cbn; exact Hid]. subst c'.
+  cbn -[find_mtp put_mtp get Store.set send] in *.
+  set (M := c_mtp c <| m_coll_amt := m_coll_amt (c_mtp c) + coll_amt |> <| m_liab := m_liab (c_mtp c) + liab_add |>
+                    <| m_cust_amt := m_cust_amt (c_mtp c) + cust_amt |> <| m_lev := eta + PREC |> <| m_health := h |>) in *.
+  set (id' := ms_count (c_s c) + 1) in *.
+  assert (Hp7nn : 0 <= q_nb p7 /\ 0 <= q_eb p7).
+  { destruct (m_coll_asset (c_mtp c) =? ROWAN); repeat inv1 Hp7; uints; subst; cbn; split; lia. }
+  assert (HMnn : 0 <= m_cust_amt M) by (unfold M; cbn; lia).
+  assert (HMshape : shape M).
+  { unfold shape. assert (E : pool_asset_of M = pool_asset_of (c_mtp c)) by reflexivity. rewrite E, (on_pool_asset _ _ Hon).
+    unfold on_pool, M in *. cbn. exact Hon. }
+  assert (Hw' : mtps_wf (put_mtp (c_s c <| ms_bank := b |> <| ms_pools := set (c_asset c) p7 (ms_pools (c_s c <| ms_bank := b |>)) |>
+                                         <| ms_count := id' |> <| ms_open := ms_open (c_s c) + 1 |>) (c_addr c) id' M)).
+  { unfold put_mtp. apply mtps_wf_set; [exact Hw|]. apply wf_set. apply (mtps_of_wf (c_s c) (c_addr c) Hw). }
+  split.
+  { split; [cbn; unfold id'; lia|]. split; [exact Hw'|]. cbn -[find_mtp put_mtp].
+    split; [exact HMnn|]. split; [exact (proj1 Hp7nn)|]. split; [exact (proj2 Hp7nn)|].
+    intros addr' idx m' Hf. apply find_put_cases in Hf. destruct Hf as [->|Hf]; [exact HMnn|]. exact (Hc4 _ _ _ Hf). }
+  split.
+  { assert (Hid' : id' <> 0) by (unfold id'; lia).
+    unfold SH. cbn -[find_mtp put_mtp]. split; [exact Haddr|]. split; [exact Hid'|]. split; [exact HMshape|]. split; [exact Hw'|].
+    intros addr' idx m' Hf. apply find_put_cases' in Hf. destruct Hf as [(-> & -> & ->)|Hf].
+    - split; [exact Hid'|]. split; [exact Haddr|exact HMshape].
+    - exact (Hsh _ _ _ Hf). }
+  split; [|reflexivity].
+  split; [reflexivity|]. right. exists p7. reflexivity.
+Qed.
+
+Theorem open_ready s hl signer coll borrow amt lev c' u :
+  SumInv s -> MReady s -> signer <> CLP_MODULE -> 0 <= ms_count s -> find_mtp s signer (ms_count s + 1) = None ->
+  open_msg s hl signer coll borrow amt lev = (c', Ok u) ->
+  SumInv (c_s c') /\ MReady (c_s c') /\ gapN (c_s c') = gapN s /\ (forall a', a' <> ROWAN -> gapE (c_s c') a' = gapE s a').
+Proof.
+  intros HS HM Hsg Hcnt Hfn H. pose proof HM as (Hw & Hn & Hsh & Hpct & Hfm & Hwp & Hpools & Hsum).
+  assert (Hf0 : find_mtp s signer 0 = None).
+  { destruct (find_mtp s signer 0) as [m0|] eqn:E; [|reflexivity]. destruct (Hsh _ _ _ E) as (Hid & _). contradiction. }
+  destruct (open_preserves s hl signer coll borrow amt lev c' u HS Hf0 Hfn H) as (HS' & _ & _ & _ & _ & _ & _ & _ & Hmem).
+  destruct (open_gap s hl signer coll borrow amt lev c' u Hsg H) as (pool & Hg & HG).
+  split; [exact HS'|].
+  set (a := if coll =? ROWAN then borrow else coll) in *.
+  destruct (Hpools _ _ Hg) as (Ha & Hnb & Heb & Hbe).
+  unfold open_msg in H.
+  destruct (mp_whitelisting (ms_params s) && negb (mem signer (ms_whitelist s))); [inversion H|].
+  destruct (mp_max_open (ms_params s) <=? ms_open s); [inversion H|].
+  fold a in H. rewrite Hg in H.
+  destruct (negb (mem a (mp_pools (ms_params s))) || mem a (mp_closed (ms_params s))); [inversion H|].
+  destruct hl; [inversion H|].
+  destruct (Bool.eqb (coll =? ROWAN) (borrow =? ROWAN)) eqn:Ex; [inversion H|].
+  set (lv := Z.min lev (mp_lev_max (ms_params s))) in *.
+  set (c1 := mkCtx s pool (new_mtp coll borrow lv) a signer 0) in *.
+  assert (Hon : on_pool a (new_mtp coll borrow lv)).
+  { unfold on_pool, new_mtp, a. cbn. destruct (Z.eqb_spec coll ROWAN) as [->|Hc]; destruct (Z.eqb_spec borrow ROWAN) as [->|Hb]; cbn in Ex; try discriminate.
+    - split; [exact Hb|]. left. auto.
+    - split; [exact Hc|]. right. auto. }
+  destruct (negb (mp_rowan_coll (ms_params s)) && (coll =? ROWAN)); [exfalso; eapply failM_not_ok; eassumption|].
+  pm H as c2 lamt E2. apply lift_ok in E2. destruct E2 as (-> & _).
+  pm H as c3 u3 E3. assert (c3 = c1) by (destruct (_ <? lamt); [exfalso; eapply failM_not_ok; eassumption|apply ret_ok in E3; tauto]). subst c3.
+  pm H as c4 u4 E4. apply lift_ok in E4. destruct E4 as (-> & _).
+  pm H as c5 cust E5. apply lift_ok in E5. destruct E5 as (-> & _).
+  pm H as c6 u6 E6. assert (c6 = c1) by (destruct (_ <? cust); [exfalso; eapply failM_not_ok; eassumption|apply ret_ok in E6; tauto]). subst c6.
+  pm H as c7 u7 E7.
+  assert (CN1 : CN c1) by (unfold CN, c1, new_mtp; cbn; split; [lia|]; split; [exact Hnb|]; split; [exact Heb|exact Hn]).
+  destruct (borrow_fn_good _ _ _ _ _ _ E7 eq_refl Hcnt Hw CN1 Hsh Hsg Hon) as (G7 & S7 & P7 & Par7).
+  (* the rest: store the pool, move the custody, health check — all on a position that has its id *)
+  match type of H with ?rest c7 = _ =>
+    assert (Fr : frames rest) by frames_auto; assert (Kg : keepsG rest) by kg_auto;
+    assert (Pf : pframes rest) by pf_auto; assert (Sh : keepsSH rest) by sh_auto end.
+  pose proof (Kg _ _ _ H G7) as G'. destruct (Sh _ _ _ H S7) as (_ & _ & _ & _ & Hsh').
+  destruct (Fr _ _ _ H) as (_ & _ & Par' & _ & _).
+  assert (PF' : PF c1 c') by (eapply PF_trans; [exact P7|exact (Pf _ _ _ H)]).
+  assert (Hpar : ms_params (c_s c') = ms_params s) by (rewrite Par', Par7; reflexivity).
+  exact (assemble_ready s a pool c1 c' eq_refl eq_refl eq_refl HM Hg G' Hsh' Hpar PF' Hmem HG).
+Qed.
+
+(* ---- histories of margin transactions and blocks ---- *)
+(* the fee a delivered transaction pays first does not touch the module account *)
+Lemma fee_debit_ready s signer fee :
+  signer <> CLP_MODULE -> SumInv s -> MReady s ->
+  let s0 := s <| ms_bank := credit (ms_bank s) signer ROWAN (- fee) |> in
+  SumInv s0 /\ MReady s0 /\ gapN s0 = gapN s /\ (forall a, gapE s0 a = gapE s a).
+Proof.
+  intros Hsg HS (Hw & Hn & Hsh & Hpct & Hfm & Hwp & Hpools & Hsum) s0.
+  assert (Hb : forall d, bal (ms_bank s0) CLP_MODULE d = bal (ms_bank s) CLP_MODULE d).
+  { intros d. unfold s0. cbn. rewrite bal_credit. destruct (Z.eqb_spec CLP_MODULE signer) as [E|_]; [symmetry in E; contradiction|]. cbn [andb]. lia. }
+  split; [exact HS|]. split.
+  - split; [exact Hw|]. split; [exact Hn|]. split; [exact Hsh|]. split; [exact Hpct|]. split; [exact Hfm|]. split; [exact Hwp|]. split.
+    + intros a p Hg. destruct (Hpools a p Hg) as (Q1 & Q2 & Q3 & Q4). rewrite Hb. auto.
+    + rewrite Hb. exact Hsum.
+  - split; [unfold gapN; rewrite Hb; reflexivity|]. intros a. unfold gapE. rewrite Hb. reflexivity.
+Qed.
+
+Inductive mstep :=
+| SMsg (fee : Z) (health_low : bool) (m : margin_msg)     (* a delivered margin transaction (the pool-health gate bit of Open is an input) *)
+| SBlock (rates : list (Z * Z * Z)).                       (* the next block's begin blocker (the new interest rates are inputs) *)
+
+Definition signer_of_margin (m : margin_msg) : Z :=
+  match m with MOpen sg _ _ _ _ => sg | MClose sg _ => sg | MAdminClose _ sg _ _ _ => sg end.
+
+(* None: the begin blocker itself fails (a panic there halts the chain: property C10) *)
+Definition mstep_apply (s : mstate) (e : mstep) : option mstate :=
+  match e with
+  | SMsg fee hl m => Some (fst (deliver_margin s fee hl m))
+  | SBlock rates =>
+    let s1 := s <| ms_height := ms_height s + 1 |> in
+    match begin_block_margin s1 rates with Ok (s', _) => Some s' | _ => None end
+  end.
+Fixpoint mrun (s : mstate) (es : list mstep) : option mstate :=
+  match es with
+  | [] => Some s
+  | e :: rest => match mstep_apply s e with Some s1 => mrun s1 rest | None => None end
+  end.
+
+(* what is asked along the run: nobody signs as the module account; the administrator's closes name an owner other than the
+   module account; when a position is opened the id counter is non-negative and the next id is free (kept by the chain:
+   ids are handed out by the counter; evaluated on observed states, not proved here) *)
+Definition mstep_ok (s : mstate) (e : mstep) : Prop :=
+  match e with
+  | SMsg fee hl m =>
+    signer_of_margin m <> CLP_MODULE /\
+    match m with
+    | MOpen sg _ _ _ _ => 0 <= ms_count s /\ find_mtp s sg (ms_count s + 1) = None
+    | _ => True
+    end
+  | SBlock _ => True
+  end.
+Fixpoint mrun_ok (s : mstate) (es : list mstep) : Prop :=
+  match es with
+  | [] => True
+  | e :: rest => mstep_ok s e /\ match mstep_apply s e with Some s1 => mrun_ok s1 rest | None => True end
+  end.
+
+Lemma height_ready s h : SumInv s -> MReady s ->
+  let s1 := s <| ms_height := h |> in SumInv s1 /\ MReady s1 /\ gapN s1 = gapN s /\ (forall a, gapE s1 a = gapE s a).
+Proof. intros HS HM s1. split; [exact HS|]. split; [exact HM|]. split; [reflexivity|intros; reflexivity]. Qed.
+
+Theorem mstep_ready s e s' :
+  SumInv s -> MReady s -> mstep_ok s e -> mstep_apply s e = Some s' ->
+  SumInv s' /\ MReady s' /\ gapN s' = gapN s /\ (forall a, a <> ROWAN -> gapE s' a = gapE s a).
+Proof.
+  intros HS HM Hok H. destruct e as [fee hl m|rates]; cbn [mstep_apply] in H.
+  - injection H as <-. destruct Hok as (Hsg & Hm). unfold deliver_margin.
+    fold (signer_of_margin m).
+    destruct (fee_debit_ready s (signer_of_margin m) fee Hsg HS HM) as (HS0 & HM0 & GN0 & GE0).
+    set (s0 := s <| ms_bank := credit (ms_bank s) (signer_of_margin m) ROWAN (- fee) |>) in *.
+    assert (Hfail : SumInv s0 /\ MReady s0 /\ gapN s0 = gapN s /\ (forall a, a <> ROWAN -> gapE s0 a = gapE s a))
+      by (split; [exact HS0|]; split; [exact HM0|]; split; [exact GN0|intros a _; apply GE0]).
+    destruct m as [sg c b a l|sg id|adm sg addr id tf]; cbn [signer_of_margin] in *.
+    + destruct (open_msg s0 hl sg c b a l) as [c' o] eqn:E. destruct o as [u| |]; cbn [snd fst]; try exact Hfail.
+      destruct Hm as (Hcnt & Hfresh).
+      destruct (open_ready s0 hl sg c b a l c' u HS0 HM0 Hsg Hcnt Hfresh E) as (A1 & A2 & A3 & A4).
+      split; [exact A1|]. split; [exact A2|]. split; [congruence|]. intros a' Hr. rewrite (A4 a' Hr). apply GE0.
+    + destruct (close_msg s0 sg id) as [c' o] eqn:E. destruct o as [r| |]; cbn [snd fst]; try exact Hfail.
+      destruct (close_ready s0 sg id c' r HS0 HM0 E) as (A1 & A2 & A3 & A4).
+      split; [exact A1|]. split; [exact A2|]. split; [congruence|]. intros a' Hr. rewrite (A4 a' Hr). apply GE0.
+    + destruct (admin_close_msg s0 adm addr id tf) as [c' o] eqn:E. destruct o as [r| |]; cbn [snd fst]; try exact Hfail.
+      destruct (admin_close_ready s0 adm addr id tf c' r HS0 HM0 E) as (_ & A1 & A2 & A3 & A4).
+      split; [exact A1|]. split; [exact A2|]. split; [congruence|]. intros a' Hr. rewrite (A4 a' Hr). apply GE0.
+  - destruct (height_ready s (ms_height s + 1) HS HM) as (HS1 & HM1 & GN1 & GE1).
+    set (s1 := s <| ms_height := ms_height s + 1 |>) in *.
+    destruct (begin_block_margin s1 rates) as [[s2 cl]| |] eqn:E; try discriminate. injection H as <-.
+    destruct (begin_block_margin_full s1 rates s2 cl HS1 HM1 E) as (A1 & A2 & _).
+    destruct (begin_block_margin_gap s1 rates s2 cl HS1 HM1 E) as (A3 & A4).
+    split; [exact A1|]. split; [exact A2|]. split; [congruence|]. intros a' Hr. rewrite (A4 a' Hr). apply GE1.
+Qed.
+
+(* C13 / C01 over histories of margin transactions and blocks: premise on the first state *)
+Theorem margin_history es : forall s s',
+  SumInv s -> MReady s -> mrun_ok s es -> mrun s es = Some s' ->
+  SumInv s' /\ MReady s' /\ gapN s' = gapN s /\ (forall a, a <> ROWAN -> gapE s' a = gapE s a).
+Proof.
+  induction es as [|e rest IH]; intros s s' HS HM Hok H; cbn [mrun mrun_ok] in *.
+  - injection H as <-. split; [exact HS|]. split; [exact HM|]. split; [reflexivity|intros; reflexivity].
+  - destruct Hok as (Hok1 & Hrest). destruct (mstep_apply s e) as [s1|] eqn:E; [|discriminate].
+    destruct (mstep_ready s e s1 HS HM Hok1 E) as (A1 & A2 & A3 & A4).
+    destruct (IH s1 s' A1 A2 Hrest H) as (B1 & B2 & B3 & B4).
+    split; [exact B1|]. split; [exact B2|]. split; [congruence|]. intros a Hr. rewrite (B4 a Hr). apply A4. exact Hr.
 Qed.
